@@ -613,6 +613,8 @@ struct ObjInfo {
     latest: Vec<(String, String)>,
     /// the node that made it
     latest_src: usize,
+    /// every column set the server ever announced to this client for this object (creating PREPARED included)
+    announced: Vec<Vec<(String, String)>>,
     /// the text the caller passed to `prepare()` for this object, and its statement number
     text_given: String,
     stmt_no: usize,
@@ -922,7 +924,12 @@ impl World<'_> {
                                 // no extension, metadata omitted as requested: the rows must be decoded with the metadata
                                 // most recently announced for this statement when this EXECUTE was built
                                 let latest = op.latest_at_build.last().cloned().unwrap_or_default();
-                                if *used != latest {
+                                if !self.objs[e.obj].announced.contains(used) {
+                                    // not the F-C14-1 shape (an OLDER announcement): the metadata cached for the request
+                                    // never reached the parser, or something else was used
+                                    let all: Vec<String> = self.objs[e.obj].announced.iter().map(|c| format!("[{}]", show_cols(c))).collect();
+                                    fails.push(format!("NEVER-ANNOUNCED connection without the extension: the request asked to skip the metadata (use_cached_result_metadata) and the node omitted it as requested, but the rows (encoded under [{}]) were decoded with [{}], which the server never announced for this statement (announced so far: {})", show_cols(&enc), show_cols(used), all.join(" ")));
+                                } else if *used != latest {
                                     fails.push(format!("F-C14-1 connection without the extension, use_cached_result_metadata: rows sent without metadata (encoded under [{}]) were decoded with [{}], but the metadata most recently announced for this statement when the EXECUTE was built was [{}]", show_cols(&enc), show_cols(used), show_cols(&latest)));
                                 } else if *used == enc {
                                     if decoded.as_ref() != Some(&expected) {
@@ -995,12 +1002,14 @@ impl World<'_> {
         match answer {
             Answer::Rows { no_meta: false, new_id: Some(mid), cols, .. } if ext => {
                 self.objs[obj].latest = cols_of_mk(cols);
+                self.objs[obj].announced.push(cols_of_mk(cols));
                 self.objs[obj].latest_src = answering;
                 self.objs[obj].expect_mid = Some((mid.clone(), !cols.is_empty()));
             }
             Answer::Prepared { id, no_meta, col_count, cols, .. } if id[..] == handle.get_id()[..] => {
                 if !*no_meta {
                     self.objs[obj].latest = cols_of_mk(cols);
+                    self.objs[obj].announced.push(cols_of_mk(cols));
                     self.objs[obj].latest_src = answering;
                 } else if *col_count > 0 {
                     self.objs[obj].byz = true;
@@ -1093,7 +1102,7 @@ impl World<'_> {
                     let byz = matches!(self.callers[k].op.as_ref().and_then(|o| o.answers.last()), Some(Answer::Prepared { no_meta: true, col_count, .. }) if *col_count > 0);
                     let src = self.callers[k].op.as_ref().map(|o| o.node).unwrap_or(usize::MAX);
                     let tv = self.srv.get(src).and_then(|n| n.st.get(*slot)).map(|s| s.tv).unwrap_or(0);
-                    self.objs.push(ObjInfo { latest: cur_cols(&ps), latest_src: src, text_given: text_v(*slot, tv), stmt_no: *slot, byz, expect_mid: None });
+                    self.objs.push(ObjInfo { latest: cur_cols(&ps), announced: vec![cur_cols(&ps)], latest_src: src, text_given: text_v(*slot, tv), stmt_no: *slot, byz, expect_mid: None });
                     self.slots[*slot] = Some((obj, *ps));
                 }
                 self.callers[k].op = None;
